@@ -317,6 +317,8 @@ def cases(tier, seed):
         maxlen = 2 if (q or cplx) else 3        # length-3 histories: real data only (the setters do not look at the data type)
         for ln in range(1, maxlen + 1):
             for seq in itertools.product(ops, repeat=ln):
+                if cplx and cls == 'pburg' and 'order<-2' in seq and ('NFFT<-5' in seq or 'data<-longer' in seq):
+                    continue        # second complex lattice stage on the 5-point grid / 4 samples: beyond the case budget
                 for first in ((True,) if ln == maxlen and ln > 1 else (False, True)):
                     out.append(Case("history:%s:%s%s" % (tag, 'compute>' if first else '', ">".join(seq)), case_history,
                                     dict(cls=cls, cplx=cplx, ops=list(seq), compute_first=first), timeout=60,
